@@ -864,12 +864,12 @@ func (e *lsEnv) step(c lsCmd, which string, history []string) (res lsStepResult)
 		}
 		for _, n := range utd {
 			if !untouched(shardFile(n)) {
-				k := "other"
+				k, why := "other", "its first shard is not in the prune plan: the preview's own index-state decision differs from the forced run's"
 				if lsHas(wr, shardFile(n)) {
-					k = "first-shard-in-prune-plan"
+					k, why = "first-shard-in-prune-plan", "its shard is removed by the same run's pruning first"
 				}
 				vfOracleFail(kind+":up-to-date-announced-but-reindexed["+k+"]",
-					"the preview printed Up to date for a repository that -f re-indexes (its shard is removed by the same run's pruning first)", rp(map[string]any{"name": n}))
+					"the preview printed Up to date for a repository that -f re-indexes ("+why+")", rp(map[string]any{"name": n}))
 			}
 		}
 		// anything (re)written that was not announced
@@ -1387,12 +1387,26 @@ func (e *lsEnv) mutate(history *[]string) {
 		e.repos[c].url = u
 		e.writeURL(e.w+c, e.repos[c])
 		note("update %s ver=%d", c, ver)
-	case k < 78: // metadata change (zoekt.web-url)
+	case k < 82: // metadata change only (zoekt.web-url; no new commit): IndexStateMeta for a repository that is in the index
 		c := ex[e.r.Intn(len(ex))]
+		var indexed []string // prefer a repository the index currently holds, and sync its root next
+		for _, sh := range e.readInv() {
+			if rp := e.repos[normalizeSourceOracle(sh.source)]; rp != nil && !sh.bad && (rp.kind == "work" || rp.kind == "bare") {
+				indexed = append(indexed, normalizeSourceOracle(sh.source))
+			}
+		}
+		if len(indexed) > 0 && e.r.Chance(80) {
+			c = indexed[e.r.Intn(len(indexed))]
+		}
 		rp := e.repos[c]
 		rp.url = (rp.url + 1 + e.r.Intn(2)) % 3
 		e.writeURL(e.w+c, rp)
 		note("url %s -> %d", c, rp.url)
+		if segs := lsSegs(c); len(segs) >= 1 && e.wantRoots == nil {
+			root := "/" + segs[0]
+			other := map[string]string{"/r1": "/r2", "/r2": "/r1", "/r3.git": "/r1"}[root]
+			e.wantRoots = e.r.Pick3([]string{root, other}, []string{other, root}, []string{root})
+		}
 	case k < 90: // delete
 		c := ex[e.r.Intn(len(ex))]
 		os.RemoveAll(e.w + c)
